@@ -861,7 +861,9 @@ def get_unique_seq(onsets, offsets, unique_onset_idxs=None, return_diff=False):
     first_time = np.min(onsets)
 
     # ensure last score time is later than last onset
-    if np.max(onsets) == np.max(offsets):
+    # (the offsets are sums of single precision numbers: an offset that
+    # reaches the last onset may differ from it by a rounding error)
+    if np.isclose(np.max(onsets), np.max(offsets)):
         # last note without duration (grace note)
         last_time = np.max(onsets) + 1
     else:
